@@ -145,6 +145,12 @@ RULES = [
                                     'subject_alias', 'result_alias')
          for v in [getattr(n, a, None)] if isinstance(v, (str, tuple))
          for vv in (v if isinstance(v, tuple) else (v,)) if isinstance(vv, str) for part in vv.split('::'))),
+    # grammar: `RESET IDENT` takes the IDENT *token*, so an unreserved keyword is a field name only when back-quoted;
+    # quote_ident leaves unreserved keywords bare
+    ('ddl-reset-field-unreserved-keyword-unquoted',
+     lambda f: f.st == 'reparse-fail' and re.search(r"Unexpected keyword", f.err) and any(
+         isinstance(n, f.ql.SetField) and n.value is None and not n.special_syntax and _is_unreserved(n.name)
+         for n in f.nodes)),
     ('ddl-reset-field-name-keeps-backquotes',
      lambda f: f.st == 'ast-diff' and re.search(r"\.name: ['\"]`", f.diff)
      and isinstance(f.diffnode, f.ql.SetField) and f.diffnode.value is None),
@@ -253,6 +259,11 @@ RULES = [
     ('nested-body-text-not-idempotent',
      lambda f: f.st == 'text-diff' and f.has('CreateMigration', 'CreateExtensionPackage', 'CreateExtensionPackageMigration')),
 ]
+
+
+def _is_unreserved(name):
+    from edb.edgeql.parser.grammar import keywords as kw
+    return name.lower() in kw.by_type[kw.UNRESERVED_KEYWORD]
 
 
 def _is_reserved(name):
